@@ -2,15 +2,17 @@
    boxes in the moof, clear and protected tracks side by side (mp4/crypto.go DecryptFragment, text of the tree):
 
      for _, traf := range moof.Trafs { ti := di.findTrackInfo(traf.Tfhd.TrackID)
-        if ti.Sinf != nil { scheme check; senc present?; samples := frag.GetFullSamples(ti.Trex);
+        if ti.Sinf != nil { scheme check; senc present?; samples := frag.getFullSamplesOfTraf(traf, ti.Trex);
                             decryptSamplesInPlace(...); nrBytesRemoved += traf.RemoveEncryptionBoxes() } }
      _, psshBytesRemoved := moof.RemovePsshs(); nrBytesRemoved += psshBytesRemoved
      for every traf, every trun: trun.DataOffset -= int32(nrBytesRemoved)          (int32 arithmetic)
      if frag.Mdat.StartPos > frag.Moof.StartPos { frag.Mdat.StartPos -= nrBytesRemoved }   (uint64 arithmetic)
 
-   Domain of the model (boolean predicate xwf, in the statements): the trafs of a moof have pairwise distinct track
-   ids and every protected track has a trex (Fragment.GetFullSamples(trex) then returns the samples of THAT traf, all
-   its truns concatenated; with a nil trex it returns those of the first traf of the moof).  Box sizes are Box.Size():
+   Every protected traf is decrypted with ITS OWN senc over ITS OWN samples, all its truns concatenated (text after fix
+   fc9ee41, finding C06-F7: the pinned text fetched the samples of the FIRST traf of the track, so a moof with several
+   trafs of one track - ISO 14496-12 allows zero or more per track - was not decrypted).  Several trafs of one track, trafs
+   of tracks the init segment does not know (treated as clear) and tracks without a trex are all inside the model: x_data
+   is the sample data of the traf as the decoder resolves it.  Box sizes are Box.Size():
    a box read with a 16-byte (large-size) header counts 16 header bytes (xbox_size).  Definitions only. *)
 From V.lib Require Import Base.
 From V.c07 Require Import C07Model.
@@ -158,13 +160,6 @@ Fixpoint set_positions (base : N) (cs : list xchild) (poss : list (list N)) : li
 
 Definition xlayout (start : N) (cs : list xchild) (mdat_hdr : N) (poss : list (list N)) : xfrag :=
   mkXF start (set_positions (xmoof_size cs + mdat_hdr) cs poss) (start + xmoof_size cs).
-
-(* well-formedness of a multi-track moof as far as the model goes: distinct track ids *)
-Fixpoint traf_tracks (cs : list xchild) : list N :=
-  match cs with [] => [] | XTraf t :: r => x_track t :: traf_tracks r | _ :: r => traf_tracks r end.
-Fixpoint distinctN (l : list N) : bool :=
-  match l with [] => true | x :: t => negb (existsb (N.eqb x) t) && distinctN t end.
-Definition xwf (cs : list xchild) : bool := distinctN (traf_tracks cs).
 
 (* ---------------------------------------------------------------- the packager side (third-party style) *)
 (* every protected traf's samples (all its truns, in order) go through the per-sample loop of EncryptFragment with the
